@@ -519,6 +519,32 @@ def load_from(loader, text, target, path):
 TARGETS = ["fileobj", "str", "pathlike"]
 
 
+def load_from_streams(loader, text):
+    """the same text through two more kinds of file object (round 8): a stream positioned AFTER a header that precedes the model, and
+    a stream that cannot seek (a pipe).  A file-object target is read from where it stands.  Returns an error text or None."""
+    import threading
+    try:
+        head = "# model follows\n"
+        f = io.StringIO(head + text); f.seek(len(head))
+        loader(f)
+    except Exception as e:
+        return f"[file object positioned after a header line] {type(e).__name__}: {e}"
+    try:
+        r, w = os.pipe()
+        def feed():
+            with os.fdopen(w, "w", encoding="utf-8") as fw:
+                fw.write(text)
+        th = threading.Thread(target=feed); th.start()
+        try:
+            with os.fdopen(r, "r", encoding="utf-8") as fr:
+                loader(fr)
+        finally:
+            th.join()
+    except Exception as e:
+        return f"[non-seekable file object (pipe)] {type(e).__name__}: {e}"
+    return None
+
+
 def generations(kind, obj, ngen, k0, tag):
     """run ngen save/load generations; returns list of per-generation records."""
     from deeprob.spn.structure.io import save_spn_json, load_spn_json, save_binary_clt_json, load_binary_clt_json
@@ -532,6 +558,10 @@ def generations(kind, obj, ngen, k0, tag):
         loaded, lerr = (None, None)
         if text is not None:
             loaded, lerr = load_from(loader, text, TARGETS[(k0 + g + 1) % 3], path + ".in")
+            if loaded is not None and g == 0:
+                serr2 = load_from_streams(loader, text)
+                if serr2:
+                    loaded, lerr = None, serr2
         recs.append(dict(kind=kind, tag=tag, gen=g, target=target, orig=cur, text=text, save_error=serr,
                          loaded=loaded, load_error=lerr))
         if loaded is None:
